@@ -16,10 +16,12 @@ def run(rep, tier, seed, replay=None):
         jobs = [(replay["case_obj"], replay.get("comp", 0), replay.get("pickseed", 1), replay.get("frame", {}))]
     else:
         plain, _ = codecrun.gen_cases(ctx, rng, n // 2, comp_mode=False)
-        comp, _ = codecrun.gen_cases(ctx, rng, n, comp_mode=True)
+        comp, _ = codecrun.gen_cases(ctx, rng, n, comp_mode=True, allow_single=True)     # a compressed message may hold a single subset
         jobs = []
         for c in plain + comp:
-            cm = 1 if (c["same"] and len(c["subsets"]) >= 2) else 0
+            cm = 1 if (c["same"] and (len(c["subsets"]) >= 2 or rng.random() < 0.7)) else 0
+            if not c["same"] and len(c["subsets"]) == 1 and rng.random() < 0.3:
+                cm = 1
             fr = dict(s2=(None if rng.random() < 0.5 else bytes(rng.randrange(256) for _ in range(rng.choice([0, 1, 2, 3, 8, 33])))),
                       header=(b"" if rng.random() < 0.6 else bytes(rng.choice(b"\r\n\x01 ABCxyz019") for _ in range(rng.randint(1, 30)))),
                       s4_extra_pad=rng.choice([0, 0, 0, 1, 2, 5]),
